@@ -353,6 +353,18 @@ namespace
             rel     = [sa, q, n] { sa->deallocate(q, n); };
             return true;
         }
+        if (kind == "sy")
+        {
+            // type-erased std_allocator, rebound from another value type: the copy is made through the
+            // type-erased base class (reference_storage<any_allocator>'s constructor from its base_allocator)
+            fm::any_std_allocator<char> s0(a);
+            auto                        sa = std::make_shared<fm::any_std_allocator<T>>(s0);
+            T*                          q  = sa->allocate(n);
+            p                              = q;
+            cnt                            = n;
+            rel                            = [sa, q, n] { sa->deallocate(q, n); };
+            return true;
+        }
         if (kind == "sh")
         {
             auto sp = std::make_shared<std::shared_ptr<T>>(fm::allocate_shared<T>(a));
@@ -848,7 +860,7 @@ namespace
                 Ev("fill").i("L", cmd.arg(0)).i("cap", cmd.arg(1));
                 continue;
             }
-            if (op == "uq" || op == "ua" || op == "sh" || op == "ub" || op == "sa")
+            if (op == "uq" || op == "ua" || op == "sh" || op == "ub" || op == "sa" || op == "sy")
             {
                 int         cls = static_cast<int>(cmd.arg(0));
                 std::size_t n   = static_cast<std::size_t>(cmd.arg(1, 3));
@@ -857,7 +869,7 @@ namespace
                 std::size_t cnt = 1, sz = 0, al = 1;
                 std::function<void()> rel;
                 // the request as the helper must make it is only known after the call: log it with the ret
-                bool as_array = op == "ua" || (op == "sa" && n != 1);
+                bool as_array = op == "ua" || ((op == "sa" || op == "sy") && n != 1);
                 Ev("call").i("id", id).s("op", as_array ? "aa" : "an").u("n", 0).u("sz", 0).u("al", 0).i("h", 0);
                 bool        did = false;
                 std::string r   = classify([&] { did = c.smart(op, cls, n, p, cnt, sz, al, rel); });
